@@ -1085,8 +1085,13 @@ bool evaluate_impl(const void *context, const GraphView &graph,
   // per-cycle setup (next_scheduled accumulation / push-source pass). A
   // completed cycle resets the cursor to 0. (A cursor of 0 or the initial
   // invalid sentinel means "fresh".)
+  // A cycle that ended with an exception leaves the cursor on the failing
+  // node (failed_node() reports it); that is a failure, not a pause, so the
+  // next evaluation of a graph that keeps running (a try_except / error
+  // capturing child) must start a fresh cycle from the first node.
   const bool resuming =
-      state.evaluation_cursor != 0 && state.evaluation_cursor != invalid_cursor;
+      !state.evaluation_failed && state.evaluation_cursor != 0 &&
+      state.evaluation_cursor != invalid_cursor;
 
   state.evaluation_time = evaluation_time;
   state.evaluation_failed = false;
